@@ -15,6 +15,7 @@ import (
 	"encoding/binary"
 	"fmt"
 	"io"
+	"regexp"
 	"sort"
 	"strings"
 	"testing"
@@ -252,6 +253,24 @@ func (a *c23App) applyBox(op string, name string, size int) (nt string) {
 
 // ---------------------------------------------------------------- generator
 
+// c23R draws an integer uniformly from [lo, hi]. rapid.IntRange is deliberately biased towards small values, which
+// would distort every weighted choice and percentage below; 24 fair coin flips give an (almost exactly) uniform draw
+// that still shrinks towards lo.
+func c23R(t *rapid.T, label string, lo, hi int) int {
+	if hi <= lo {
+		return lo
+	}
+	bits := rapid.SliceOfN(rapid.Bool(), 24, 24).Draw(t, label)
+	v := 0
+	for _, b := range bits {
+		v <<= 1
+		if b {
+			v |= 1
+		}
+	}
+	return lo + v%(hi-lo+1)
+}
+
 type c23Op struct {
 	K      string // box/global/local op code, or: optin closeout clear delete update fund
 	App    int    // index of the called app
@@ -296,25 +315,25 @@ var c23Names = []string{"a", "ab", "abc", "b", "\x00", "\x00\x00", "\xff", "a\x0
 var c23Keys = []string{"a", "b", "c", "", "\x00", strings.Repeat("k", 64)}
 
 func c23DrawSize(t *rapid.T) int {
-	switch rapid.IntRange(0, 19).Draw(t, "sizeKind") {
+	switch c23R(t, "sizeKind", 0, 19) {
 	case 0:
 		return 0
 	case 1:
 		return 1
 	case 2, 3, 4, 5:
-		return rapid.IntRange(2, 64).Draw(t, "sizeSmall")
+		return c23R(t, "sizeSmall", 2, 64)
 	case 6, 7, 8:
-		return 1024 + rapid.IntRange(-1, 1).Draw(t, "size1k")
+		return 1024 + c23R(t, "size1k", -1, 1)
 	case 9, 10:
-		return 2048 + rapid.IntRange(-1, 1).Draw(t, "size2k")
+		return 2048 + c23R(t, "size2k", -1, 1)
 	case 11, 12:
-		return 4096 + rapid.IntRange(-1, 1).Draw(t, "size4k")
+		return 4096 + c23R(t, "size4k", -1, 1)
 	case 13:
 		return 8192
 	case 14:
-		return 32768 + rapid.IntRange(-1, 1).Draw(t, "sizeMax")
+		return 32768 + c23R(t, "sizeMax", -1, 1)
 	default:
-		return rapid.IntRange(0, 3000).Draw(t, "size")
+		return c23R(t, "size", 0, 3000)
 	}
 }
 
@@ -328,29 +347,29 @@ type c23World struct {
 
 func (w *c23World) drawName(t *rapid.T, a *c23App, wantExisting int) string {
 	// wantExisting: percent chance to pick a name that currently exists in the app (if any)
-	if len(a.Boxes) > 0 && rapid.IntRange(0, 99).Draw(t, "nameExisting") < wantExisting {
+	if len(a.Boxes) > 0 && c23R(t, "nameExisting", 0, 99) < wantExisting {
 		names := make([]string, 0, len(a.Boxes))
 		for n := range a.Boxes {
 			names = append(names, n)
 		}
 		sort.Strings(names)
-		return names[rapid.IntRange(0, len(names)-1).Draw(t, "nameIdx")]
+		return names[c23R(t, "nameIdx", 0, len(names)-1)]
 	}
-	switch rapid.IntRange(0, 49).Draw(t, "nameOdd") {
+	switch c23R(t, "nameOdd", 0, 49) {
 	case 0:
 		return "" // illegal: zero length
 	case 1:
 		return strings.Repeat("y", 65) // illegal: too long
 	}
-	return c23Names[rapid.IntRange(0, len(c23Names)-1).Draw(t, "name")]
+	return c23Names[c23R(t, "name", 0, len(c23Names)-1)]
 }
 
 func (w *c23World) drawOp(t *rapid.T, progress int) c23Op {
 	m := w.m
 	op := c23Op{Via: -1}
-	op.App = rapid.IntRange(0, len(m.apps)-1).Draw(t, "app")
+	op.App = c23R(t, "app", 0, len(m.apps)-1)
 	a := m.apps[op.App]
-	op.Caller = rapid.IntRange(0, len(w.actors)-1).Draw(t, "caller")
+	op.Caller = c23R(t, "caller", 0, len(w.actors)-1)
 	var opted, notOpted []int
 	for i, ad := range w.actors {
 		if _, ok := a.Opted[ad]; ok {
@@ -360,8 +379,8 @@ func (w *c23World) drawOp(t *rapid.T, progress int) c23Op {
 		}
 	}
 	pickFrom := func(label string, set []int) {
-		if len(set) > 0 && rapid.IntRange(0, 9).Draw(t, label+"Pref") < 9 {
-			op.Caller = set[rapid.IntRange(0, len(set)-1).Draw(t, label)]
+		if len(set) > 0 && c23R(t, label+"Pref", 0, 9) < 9 {
+			op.Caller = set[c23R(t, label, 0, len(set)-1)]
 		}
 	}
 	type wk struct {
@@ -372,7 +391,11 @@ func (w *c23World) drawOp(t *rapid.T, progress int) c23Op {
 		{"gp", 7}, {"gu", 7}, {"gd", 4}, {"lp", 5}, {"lu", 5}, {"ld", 3},
 		{"optin", 7}, {"closeout", 3}, {"clear", 4}, {"update", 3}, {"cl", 2}, {"fund", 1}}
 	if len(opted) == 0 {
-		ws[14].w = 14
+		ws[14].w = 16
+		ws[11].w, ws[12].w, ws[13].w = 1, 1, 1
+	} else if len(opted) < 3 {
+		ws[14].w = 9
+		ws[11].w, ws[12].w = 8, 8
 	}
 	if a.Closed {
 		ws[19].w = 60
@@ -387,7 +410,7 @@ func (w *c23World) drawOp(t *rapid.T, progress int) c23Op {
 	for _, x := range ws {
 		tot += x.w
 	}
-	r := rapid.IntRange(0, tot-1).Draw(t, "opKind")
+	r := c23R(t, "opKind", 0, tot-1)
 	for _, x := range ws {
 		if r < x.w {
 			op.K = x.k
@@ -401,20 +424,20 @@ func (w *c23World) drawOp(t *rapid.T, progress int) c23Op {
 		op.Size = c23DrawSize(t)
 		if sz, ok := a.Boxes[op.Name]; ok && rapid.Bool().Draw(t, "sameSize") {
 			op.Size = sz
-		} else if d, ok := a.LastDel[op.Name]; ok && rapid.IntRange(0, 3).Draw(t, "lastDelSize") == 0 {
+		} else if d, ok := a.LastDel[op.Name]; ok && c23R(t, "lastDelSize", 0, 3) == 0 {
 			op.Size = d // sometimes recreate with the old size
 		}
 	case "bp":
 		op.Name = w.drawName(t, a, 40)
-		op.Val = []int{0, 1, 5, 64, 1000, 1024, 4096}[rapid.IntRange(0, 6).Draw(t, "putLen")]
-		if sz, ok := a.Boxes[op.Name]; ok && sz <= 4096 && rapid.IntRange(0, 3).Draw(t, "putSame") != 0 {
+		op.Val = []int{0, 1, 5, 64, 1000, 1024, 4096}[c23R(t, "putLen", 0, 6)]
+		if sz, ok := a.Boxes[op.Name]; ok && sz <= 4096 && c23R(t, "putSame", 0, 3) != 0 {
 			op.Val = sz
 		}
 	case "br", "dc":
 		op.Name = w.drawName(t, a, 90)
 		op.Size = c23DrawSize(t)
-		if sz, ok := a.Boxes[op.Name]; ok && rapid.IntRange(0, 2).Draw(t, "resizeNear") == 0 {
-			op.Size = sz + rapid.IntRange(-2, 2).Draw(t, "resizeDelta")
+		if sz, ok := a.Boxes[op.Name]; ok && c23R(t, "resizeNear", 0, 2) == 0 {
+			op.Size = sz + c23R(t, "resizeDelta", -2, 2)
 			if op.Size < 0 {
 				op.Size = 0
 			}
@@ -428,46 +451,49 @@ func (w *c23World) drawOp(t *rapid.T, progress int) c23Op {
 	case "bx", "bs":
 		op.Name = w.drawName(t, a, 92)
 		sz := a.Boxes[op.Name]
-		op.Val = rapid.IntRange(0, 40).Draw(t, "replLen")
+		op.Val = c23R(t, "replLen", 0, 40)
 		hi := sz - op.Val
-		if rapid.IntRange(0, 5).Draw(t, "replBeyond") == 0 {
+		if c23R(t, "replBeyond", 0, 5) == 0 {
 			hi = sz + 2
 		}
 		if hi < 0 {
 			hi = 0
 		}
-		op.Start = rapid.IntRange(0, hi).Draw(t, "replStart")
+		op.Start = c23R(t, "replStart", 0, hi)
 		if op.K == "bs" {
 			rest := sz - op.Start
 			if rest < 0 {
 				rest = 0
 			}
-			op.Len = rapid.IntRange(0, rest+1).Draw(t, "spliceLen")
+			op.Len = c23R(t, "spliceLen", 0, rest+1)
 		}
 	case "bd":
 		op.Name = w.drawName(t, a, 88)
 	case "gp", "gu", "gd":
-		op.Name = c23Keys[rapid.IntRange(0, len(c23Keys)-1).Draw(t, "key")]
-		op.Val = rapid.IntRange(0, 20).Draw(t, "valLen")
+		op.Name = c23Keys[c23R(t, "key", 0, len(c23Keys)-1)]
+		op.Val = c23R(t, "valLen", 0, 20)
 	case "lp", "lu", "ld":
-		op.Name = c23Keys[rapid.IntRange(0, len(c23Keys)-1).Draw(t, "key")]
-		op.Val = rapid.IntRange(0, 20).Draw(t, "valLen")
+		op.Name = c23Keys[c23R(t, "key", 0, len(c23Keys)-1)]
+		op.Val = c23R(t, "valLen", 0, 20)
 		pickFrom("optedCaller", opted)
 	case "optin":
 		pickFrom("newCaller", notOpted)
 		if rapid.Bool().Draw(t, "optinWrites") { // write a local key in the opt-in call itself
-			op.Name = c23Keys[rapid.IntRange(0, 2).Draw(t, "key")]
-			op.Clear = []string{"lp", "lu"}[rapid.IntRange(0, 1).Draw(t, "optinOp")]
+			op.Name = c23Keys[c23R(t, "key", 0, 2)]
+			op.Clear = []string{"lp", "lu"}[c23R(t, "optinOp", 0, 1)]
 		}
 	case "closeout":
 		pickFrom("optedCaller", opted)
 	case "clear":
 		pickFrom("optedCaller", opted)
-		op.Clear = []string{"ok", "err", "gp", "gu", "gpe", "lp", "bx", ""}[rapid.IntRange(0, 7).Draw(t, "clearKind")]
-		op.Name = c23Keys[rapid.IntRange(0, 2).Draw(t, "key")]
+		op.Clear = []string{"ok", "err", "gp", "gu", "gpe", "lp", "bx", ""}[c23R(t, "clearKind", 0, 7)]
+		op.Name = c23Keys[c23R(t, "key", 0, 2)]
 	case "update":
-		op.G = basics.StateSchema{NumUint: uint64(rapid.IntRange(0, 3).Draw(t, "gUint")), NumByteSlice: uint64(rapid.IntRange(0, 3).Draw(t, "gBytes"))}
-		if rapid.IntRange(0, 2).Draw(t, "byCreator") != 0 {
+		op.G = basics.StateSchema{NumUint: uint64(c23R(t, "gUint", 0, 3)), NumByteSlice: uint64(c23R(t, "gBytes", 0, 3))}
+		if op.G == (basics.StateSchema{}) && c23R(t, "plainUpdate", 0, 3) != 0 {
+			op.G.NumUint = 1
+		}
+		if c23R(t, "byCreator", 0, 2) != 0 {
 			for i, ad := range w.actors {
 				if ad == a.Creator {
 					op.Caller = i
@@ -478,8 +504,8 @@ func (w *c23World) drawOp(t *rapid.T, progress int) c23Op {
 	// forward box / global ops through another app as an inner call
 	switch op.K {
 	case "bc", "bp", "br", "bx", "bs", "bd", "cd", "dc", "gp", "gu", "gd":
-		if len(m.apps) > 1 && rapid.IntRange(0, 99).Draw(t, "inner") < 14 {
-			v := rapid.IntRange(0, len(m.apps)-2).Draw(t, "via")
+		if len(m.apps) > 1 && c23R(t, "inner", 0, 99) < 14 {
+			v := c23R(t, "via", 0, len(m.apps)-2)
 			if v >= op.App {
 				v++
 			}
@@ -616,8 +642,10 @@ func (w *c23World) applyAccepted(mc *c23Model, ops []c23Op, nts map[string]bool)
 		case "fund":
 			a.Closed = false
 		case "update":
-			a.G = op.G
-			a.Sponsor = caller
+			if op.G != (basics.StateSchema{}) { // an update without sizing fields leaves schema and sponsor alone
+				a.G = op.G
+				a.Sponsor = caller
+			}
 		}
 	}
 }
@@ -816,11 +844,13 @@ func TestVerif_C23_History(t *testing.T) {
 
 	rapid.Check(t, func(t *rapid.T) {
 		cv := protocol.ConsensusCurrentVersion
-		if rapid.IntRange(0, 2).Draw(t, "future") == 0 {
+		if c23R(t, "future", 0, 2) == 0 {
 			cv = protocol.ConsensusFuture
 		}
 		cfg := config.GetDefaultLocal()
-		cfg.DisableLedgerLRUCache = rapid.Bool().Draw(t, "noLRU")
+		// the LRU caches and the verified-txn cache preallocate ~100k entries each, which dominates the cost of a case
+		cfg.DisableLedgerLRUCache = c23R(t, "lru", 0, 7) != 0
+		cfg.VerifiedTranscationsCacheSize = 2000
 		t0 := time.Now()
 		l := newSimpleLedgerWithConsensusVersion(tt, gen, cv, cfg, simpleLedgerLogger(quiet))
 		defer l.Close()
@@ -832,13 +862,13 @@ func TestVerif_C23_History(t *testing.T) {
 		}
 
 		w := &c23World{actors: gaddrs[:5], m: &c23Model{}, bytesBR: proto.BytesPerBoxReference}
-		nApps := rapid.IntRange(2, 3).Draw(t, "apps")
+		nApps := c23R(t, "apps", 2, 3)
 		// setup block: create and fund the apps
 		eval := nextBlock(tt, l)
 		for i := 0; i < nApps; i++ {
-			creator := gaddrs[rapid.IntRange(0, 4).Draw(t, "creator")]
-			g := basics.StateSchema{NumUint: uint64(rapid.IntRange(0, 2).Draw(t, "gUint")), NumByteSlice: uint64(rapid.IntRange(0, 2).Draw(t, "gBytes"))}
-			ls := basics.StateSchema{NumUint: uint64(rapid.IntRange(0, 2).Draw(t, "lUint")), NumByteSlice: uint64(rapid.IntRange(0, 2).Draw(t, "lBytes"))}
+			creator := gaddrs[c23R(t, "creator", 0, 4)]
+			g := basics.StateSchema{NumUint: uint64(c23R(t, "gUint", 0, 2)), NumByteSlice: uint64(c23R(t, "gBytes", 0, 2))}
+			ls := basics.StateSchema{NumUint: uint64(c23R(t, "lUint", 0, 2)), NumByteSlice: uint64(c23R(t, "lBytes", 0, 2))}
 			id := basics.AppIndex(eval.TestingTxnCounter() + 1)
 			txn(tt, l, eval, &txntest.Txn{Type: "appl", Sender: creator, ApprovalProgram: progs[0], ClearStateProgram: progs[1],
 				GlobalStateSchema: g, LocalStateSchema: ls, Note: fmt.Sprintf("c23-create-%d", i)})
@@ -859,17 +889,17 @@ func TestVerif_C23_History(t *testing.T) {
 
 		var fp strings.Builder
 		var rendered []string
-		nBlocks := rapid.IntRange(4, 10).Draw(t, "blocks")
+		nBlocks := c23R(t, "blocks", 4, 10)
 		accepted, rejected := 0, 0
 		for b := 0; b < nBlocks; b++ {
 			eval := nextBlock(tt, l)
 			nGroups := 1
-			if rapid.IntRange(0, 19).Draw(t, "multiGroup") >= 7 {
-				nGroups = rapid.IntRange(2, 6).Draw(t, "groups")
+			if c23R(t, "multiGroup", 0, 19) >= 7 {
+				nGroups = c23R(t, "groups", 2, 6)
 			}
 			for g := 0; g < nGroups; g++ {
 				gs := 1
-				if r := rapid.IntRange(0, 11).Draw(t, "groupSize"); r >= 11 {
+				if r := c23R(t, "groupSize", 0, 11); r >= 11 {
 					gs = 3
 				} else if r >= 8 {
 					gs = 2
@@ -889,7 +919,7 @@ func TestVerif_C23_History(t *testing.T) {
 					// ops are drawn against the state the earlier ops of the group would leave if the group is accepted
 					w.m = mc
 					op := w.drawOp(t, 100*b/nBlocks)
-					if i > 0 && rapid.IntRange(0, 3).Draw(t, "pairUp") == 0 {
+					if i > 0 && c23R(t, "pairUp", 0, 3) == 0 {
 						// same-group create+delete / delete+recreate on the box touched by the previous op
 						p := ops[i-1]
 						switch p.K {
@@ -967,24 +997,7 @@ func TestVerif_C23_History(t *testing.T) {
 				}
 				if err != nil {
 					if len(ops) == 1 {
-						e := err.Error()
-						if i := strings.Index(e, "logic eval error: "); i >= 0 {
-							e = e[i+len("logic eval error: "):]
-						}
-						for _, cut := range []string{" 0x", " in TEAL", ". Details", ":"} {
-							if i := strings.Index(e, cut); i > 8 {
-								e = e[:i]
-							}
-						}
-						if len(e) > 48 {
-							e = e[:48]
-						}
-						vk.Label("reject-reason:" + strings.Map(func(r rune) rune {
-							if r >= '0' && r <= '9' {
-								return '#'
-							}
-							return r
-						}, e))
+						vk.Label("reject-reason:" + c23Reason(err))
 					}
 					continue
 				}
@@ -997,7 +1010,7 @@ func TestVerif_C23_History(t *testing.T) {
 			l.trackers.waitAccountsWriting()
 			snap = w.checkLedger(t, tt, l, vk, fmt.Sprintf("after block %d", b+1), snap, nts)
 		}
-		if rapid.IntRange(0, 3).Draw(t, "flush") == 0 {
+		if c23R(t, "flush", 0, 3) == 0 {
 			// push everything into the database and read it all back through the committed path
 			commitRoundLookback(0, l)
 			l.trackers.waitAccountsWriting()
@@ -1021,6 +1034,30 @@ func TestVerif_C23_History(t *testing.T) {
 			vk.Sample(nt, rendered)
 		}
 	})
+}
+
+var c23ReTxid = regexp.MustCompile(`transaction [A-Z2-7]{52}: `)
+var c23ReAddr = regexp.MustCompile(`[A-Z2-7]{58}`)
+var c23ReNum = regexp.MustCompile(`[0-9]+`)
+var c23ReHex = regexp.MustCompile(`0x[0-9a-f]*`)
+
+// c23Reason normalises an evaluation error into a short label
+func c23Reason(err error) string {
+	e := err.Error()
+	if i := strings.LastIndex(e, "logic eval error: "); i >= 0 {
+		e = e[i+len("logic eval error: "):]
+	}
+	if i := strings.Index(e, ". Details"); i >= 0 {
+		e = e[:i]
+	}
+	e = c23ReTxid.ReplaceAllString(e, "")
+	e = c23ReAddr.ReplaceAllString(e, "ADDR")
+	e = c23ReHex.ReplaceAllString(e, "HEX")
+	e = c23ReNum.ReplaceAllString(e, "#")
+	if len(e) > 64 {
+		e = e[:64]
+	}
+	return e
 }
 
 // padApp returns an app that is still alive, to carry padding box references (0 if none is)
